@@ -769,7 +769,8 @@ def e2e(ctx, objdir):
             ctx.case(key=("e2e", rnd, i, tuple(prog[1:]), k), tags=tags,
                      sample=meta[-1] if rnd == 0 and i == 0 else None,
                      size=sum(v[0] for v in (digest_dir(net) or {}).values()))
-            if rcs[i][0] != 0:
+            if rcs[i][0] != 0 and ctx.extra.setdefault("e2e_failures", 0) < 3:
+                ctx.extra["e2e_failures"] += 1
                 ctx.violation("C16 e2e: `uftrace record --host` failed (rc=%s) through the re-segmenting relay" % rcs[i][0],
                               {"mode": "e2e", "case": meta[-1]}, True)
         shutil.rmtree(root, ignore_errors=True)
@@ -929,7 +930,8 @@ def run_small(ctx, exe, cases, name):
         ctx.case(key=json.dumps(j, sort_keys=True), nontrivial=nontriv, tags=case_tags(case), size=case_size(case),
                  sample={"inproc_case": j, "observed": observed(case)} if len(ctx.samples) < 2 and len(case["phases"][0]) > 1 else None)
         bad_exit = [c["exit"] for ph in case["phases"] for c in ph if c["exit"] != 0] + [e for e in case["server_exit"] if e != 0]
-        if bad_exit or case["notes"]:
+        if (bad_exit or case["notes"]) and ctx.extra.setdefault("exit_failures", 0) < 3:
+            ctx.extra["exit_failures"] += 1
             ctx.violation("C16 violated (in-process): sender or receiver failed on a well-formed recording "
                           "(exit codes %s %s)" % (bad_exit, case["notes"]),
                           {"mode": "inproc", "case": j, "observed": observed(case)}, True)
@@ -950,7 +952,8 @@ def run_big(ctx, exe, cases):
                 pairs.append((c["local"] or {}, c["recv"]))
                 owner.append(case)
         bad_exit = [c["exit"] for ph in case["phases"] for c in ph if c["exit"] != 0] + [e for e in case["server_exit"] if e != 0]
-        if bad_exit or case["notes"]:
+        if (bad_exit or case["notes"]) and ctx.extra.setdefault("exit_failures_big", 0) < 3:
+            ctx.extra["exit_failures_big"] += 1
             ctx.violation("C16 violated (in-process, big payload): sender or receiver failed (exit codes %s %s)" % (bad_exit, case["notes"]),
                           {"mode": "inproc", "case": jcase(case), "observed": observed(case)}, True)
     bad = evaluate_dig(ctx, pairs, "big")
